@@ -486,6 +486,22 @@ Proof.
     rewrite issuedb_snoc in H. simpl in H. rewrite !String.eqb_refl in H. exact H.
 Qed.
 
+(* Authentications do not interfere with one another: whatever authentications - of whatever tokens, on either
+   transport, valid or not - take effect before it (in the linearisation reading: all those that overlap it or
+   precede it), the table and therefore the verdict for t is the one determined by (admin, table, t) alone. *)
+Theorem auths_do_not_interfere : forall admin others st,
+  forallb is_auth others = true -> run admin st others = st.
+Proof.
+  intros admin others. unfold run. induction others as [| o r IH]; intros st H; simpl; [reflexivity |].
+  simpl in H. apply andb_true_iff in H. destruct H as [Ho Hr].
+  destruct o; simpl in Ho; try discriminate Ho; simpl; apply IH; exact Hr.
+Qed.
+
+Theorem verdict_depends_on_own_token_only : forall admin others st o,
+  forallb is_auth others = true -> is_auth o = true ->
+  outcome_of admin (run admin st others) o = outcome_of admin st o.
+Proof. intros admin others st o H _. rewrite (auths_do_not_interfere admin others st H). reflexivity. Qed.
+
 (* ---------------- Examples: the hypotheses are satisfiable on a concrete non-trivial history ---------------- *)
 Open Scope string_scope.
 
